@@ -53,6 +53,7 @@ theorem finish_status_single (f : Finish) (h : ∀ ops, f ≠ .writer ops) : (Sp
   | drop => rfl
   | writer ops => exact absurd rfl (h ops)
   | upgrade p r ops => rfl
+  | respondFail r n => rfl
 
 /-- a dropped request never holds up the responses that follow it: once its writer is dropped,
     the next writer has its turn (Seq LTS). -/
